@@ -622,6 +622,49 @@ def canonical_control(mod):
                 break
         if changed:
             set_parents(mod.tree)
+    # a conditional expression used as a statement is an if statement:  X if c else None  ->  if c: X   (and  None if c else X -> if not c: X)
+    for holder in list(ast.walk(mod.tree)):
+        for field in ("body", "orelse", "finalbody"):
+            lst = getattr(holder, field, None)
+            if not isinstance(lst, list):
+                continue
+            for i, st in enumerate(lst):
+                if isinstance(st, ast.Expr) and isinstance(st.value, ast.IfExp):
+                    v = st.value
+                    none_else = isinstance(v.orelse, ast.Constant) and v.orelse.value is None
+                    none_body = isinstance(v.body, ast.Constant) and v.body.value is None
+                    if none_else == none_body:
+                        continue
+                    test = v.test if none_else else ast.copy_location(ast.UnaryOp(op=ast.Not(), operand=v.test), v.test)
+                    act = v.body if none_else else v.orelse
+                    new = ast.If(test=test, body=[ast.copy_location(ast.Expr(value=act), st)], orelse=[])
+                    ast.copy_location(new, st)
+                    lst[i] = new
+                    n += 1
+    # A if A else B  ->  A or B   (A a plain name / attribute chain: evaluating it once or twice is the same)
+    class _OrForm(ast.NodeTransformer):
+        def visit_IfExp(self, node):
+            self.generic_visit(node)
+            t, b = node.test, node.body
+            plain = lambda e: isinstance(e, ast.Name) or (isinstance(e, ast.Attribute) and plain(e.value))
+            if plain(t) and plain(b) and ast.dump(t) == ast.dump(b):
+                return ast.copy_location(ast.BoolOp(op=ast.Or(), values=[b, node.orelse]), node)
+            return node
+    before = n
+    tr = _OrForm()
+    cnt = [0]
+    orig_visit = tr.visit_IfExp
+
+    def counting(node):
+        r = orig_visit(node)
+        if r is not node:
+            cnt[0] += 1
+        return r
+    tr.visit_IfExp = counting
+    tr.visit(mod.tree)
+    n += cnt[0]
+    if n:
+        set_parents(mod.tree)
     for st in ast.walk(mod.tree):
         if isinstance(st, ast.If) and st.orelse and isinstance(st.test, ast.UnaryOp) and isinstance(st.test.op, ast.Not) \
                 and not (len(st.orelse) == 1 and isinstance(st.orelse[0], ast.If)):
